@@ -11,7 +11,7 @@ for n in range(1, 21):
     pid = 'C%02d' % n
     fns = []
     for (m, f, a, v) in registry.PROOF_UNITS.get(pid, []):
-        key = '%s%s' % (f, ('(' + ','.join(a) + ')') if a else '')
+        key = '%s%s' % (f, ('(' + ','.join(map(str, a)) + ')') if a else '')
         if key not in fns:
             fns.append(key)
     if pid in getattr(registry, 'STATIC_PARTS', {}):
